@@ -25,11 +25,12 @@ def contained(topo, ka0, ka1, kb0, exc, su_a, su_b, td_a, td_b, buf, v, color):
     topo = ci(topo, 0, 1)
     ks = [pick(KINDS, k) for k in (ka0, ka1, kb0)]
     exc = ci(exc, 0, 5)
-    su_a, su_b, td_a, td_b, buf, color = map(cb, (su_a, su_b, td_a, td_b, buf, color))
+    buf, color = cb(buf), cb(color)
+    su_a, su_b, td_a, td_b = ci(su_a, 0, 2), ci(su_b, 0, 2), ci(td_a, 0, 2), ci(td_b, 0, 2)     # 0 fine, 1 raises, 2 raises ... from cause
     v = ci(v, 0, 3)
     with untraced():
-        A = W.mk_layer('A', (), su=int(su_a), td=int(td_a), hooks='st')
-        B = W.mk_layer('B', (A,) if topo else (), su=int(su_b), td=int(td_b), hooks='st')
+        A = W.mk_layer('A', (), su=su_a, td={0: 0, 1: 1, 2: 3}[td_a], hooks='st')
+        B = W.mk_layer('B', (A,) if topo else (), su=su_b, td={0: 0, 1: 1, 2: 3}[td_b], hooks='st')
         ta = [W.mk_test('a0', ks[0], exc=exc), W.mk_test('a1', ks[1], exc=exc)]
         tb = [W.mk_test('b0', ks[2], exc=exc)]
     o = RW.options((['-' + 'v' * v] if v else []) + (['--buffer'] if buf else []) + (['-c'] if color else []),
@@ -105,16 +106,16 @@ def contained_reach(*a):
     return LAST[9] is None and LAST[7] and W.ERR_TD in LAST[1]
 
 
-_P = [('topo', 'int'), ('ka0', 'int'), ('ka1', 'int'), ('kb0', 'int'), ('exc', 'int'), ('su_a', 'bool'), ('su_b', 'bool'),
-      ('td_a', 'bool'), ('td_b', 'bool'), ('buf', 'bool'), ('v', 'int'), ('color', 'bool')]
+_P = [('topo', 'int'), ('ka0', 'int'), ('ka1', 'int'), ('kb0', 'int'), ('exc', 'int'), ('su_a', 'int'), ('su_b', 'int'),
+      ('td_a', 'int'), ('td_b', 'int'), ('buf', 'bool'), ('v', 'int'), ('color', 'bool')]
 _C = ', '.join(n for n, _ in _P)
-_B = ('0 <= topo <= 1 and 0 <= ka0 < %d and 0 <= ka1 < %d and 0 <= kb0 < %d and 0 <= exc <= 5 and 0 <= v <= 3' % (NK, NK, NK))
-_ONE = ' and (ka0 != 0) + (ka1 != 0) + (kb0 != 0) + su_a + su_b + td_a + td_b <= 1'
-_TWO = ' and (ka0 != 0) + (ka1 != 0) + (kb0 != 0) + su_a + su_b + td_a + td_b <= 2'
+_B = ('0 <= su_a <= 2 and 0 <= su_b <= 2 and 0 <= td_a <= 2 and 0 <= td_b <= 2 and 0 <= topo <= 1 and 0 <= ka0 < %d and 0 <= ka1 < %d and 0 <= kb0 < %d and 0 <= exc <= 5 and 0 <= v <= 3' % (NK, NK, NK))
+_ONE = ' and (ka0 != 0) + (ka1 != 0) + (kb0 != 0) + (su_a != 0) + (su_b != 0) + (td_a != 0) + (td_b != 0) <= 1'
+_TWO = ' and (ka0 != 0) + (ka1 != 0) + (kb0 != 0) + (su_a != 0) + (su_b != 0) + (td_a != 0) + (td_b != 0) <= 2'
 
 
 def _v(**kw):
-    v = dict(topo=1, ka0=3, ka1=0, kb0=0, exc=0, su_a=False, su_b=False, td_a=False, td_b=False, buf=True, v=1, color=False)
+    v = dict(topo=1, ka0=3, ka1=0, kb0=0, exc=0, su_a=0, su_b=0, td_a=0, td_b=0, buf=True, v=1, color=False)
     v.update(kw)
     return v
 
@@ -138,6 +139,6 @@ SPEC = {
          'reach': 'contained_reach', 'reach_bounds': {'quick': _B + _ONE + ' and v == 1 and exc == 0 and topo == 1',
                                                       'thorough': _B + _ONE + ' and v == 1 and exc == 0 and topo == 1'},
          'timeout': {'quick': 240, 'thorough': 850},
-         'fidelity': [_v(), _v(ka0=4, v=3), _v(topo=0, ka0=0, su_a=True, kb0=8, buf=False, v=0), _v(ka0=2, exc=4, color=True), _v(ka1=13, exc=5)]},
+         'fidelity': [_v(), _v(ka0=4, v=3), _v(topo=0, ka0=0, su_a=1, kb0=8, buf=False, v=0), _v(ka0=0, su_b=2), _v(ka0=0, td_a=2, v=2), _v(ka0=2, exc=4, color=True), _v(ka1=13, exc=5)]},
     ],
 }
